@@ -99,7 +99,7 @@ Proof. exact encrypted_stream_is_password_any_layout. Qed.
 Theorem C20_encrypted_ooxml_is_password_any_layout_flat :
   forall (c : container) (l : layout) (fuel : nat) (zip : outcome unit),
     valid_layout c l -> flat_root c l -> (fuel_for l <= fuel)%nat ->
-    In ENCRYPTED_PACKAGE (all_names c) ->
+    mem_name ENCRYPTED_PACKAGE (all_names c) = true ->
     ooxml_check_bytes fuel (cfb_write c l) = Err PasswordCfb.E_PASSWORD /\
     ooxml_new_bytes fuel (cfb_write c l) zip = Err PasswordCfb.E_PASSWORD.
 Proof. exact encrypted_ooxml_is_password_any_layout_flat. Qed.
@@ -109,7 +109,7 @@ Proof. exact encrypted_ooxml_is_password_any_layout_flat. Qed.
 Theorem C20_no_false_positive_ooxml_any_layout :
   forall (c : container) (l : layout) (fuel : nat) (zip : outcome unit),
     valid_layout c l -> (fuel_for l <= fuel)%nat ->
-    ~ In ENCRYPTED_PACKAGE (all_names c) ->
+    mem_name ENCRYPTED_PACKAGE (all_names c) = false ->
     ooxml_check_bytes fuel (cfb_write c l) = Ok tt /\
     ooxml_new_bytes fuel (cfb_write c l) zip = zip.
 Proof. exact no_encrypted_package_any_layout. Qed.
@@ -134,7 +134,7 @@ Proof. exact has_directory_is_cfb. Qed.
 Theorem C20_encrypted_ooxml_is_password :
   forall (before : list dirent) (d : dirent) (after_ : list dirent) (zip : outcome unit),
     children (before ++ d :: after_) 0 = [] ->
-    d_name d = ENCRYPTED_PACKAGE ->
+    name_equiv (d_name d) ENCRYPTED_PACKAGE ->
     ooxml_check (Ok (before ++ d :: after_)) = Err PasswordCfb.E_PASSWORD /\
     ooxml_new (Ok (before ++ d :: after_)) zip = Err PasswordCfb.E_PASSWORD.
 Proof. exact encrypted_package_is_password. Qed.
@@ -143,7 +143,7 @@ Proof. exact encrypted_package_is_password. Qed.
    the root entry links to, at any index *)
 Theorem C20_encrypted_package_of_root_is_password :
   forall (dirs : list dirent) (i : N) (d : dirent) (zip : outcome unit),
-    In i (children dirs 0) -> nthN dirs i = Some d -> d_name d = ENCRYPTED_PACKAGE ->
+    In i (children dirs 0) -> nthN dirs i = Some d -> name_equiv (d_name d) ENCRYPTED_PACKAGE ->
     ooxml_check (Ok dirs) = Err PasswordCfb.E_PASSWORD /\ ooxml_new (Ok dirs) zip = Err PasswordCfb.E_PASSWORD.
 Proof. exact encrypted_package_of_root_is_password. Qed.
 
@@ -179,7 +179,7 @@ Proof. exact zip_no_false_positive. Qed.
 (* converse over a parsed directory *)
 Theorem C20_no_false_positive_ooxml_dirs :
   forall cfb : outcome (list dirent),
-    (forall dirs, cfb = Ok dirs -> forall d, In d dirs -> d_name d <> ENCRYPTED_PACKAGE) ->
+    (forall dirs, cfb = Ok dirs -> forall d, In d dirs -> ~ name_equiv (d_name d) ENCRYPTED_PACKAGE) ->
     ooxml_check cfb <> Err PasswordCfb.E_PASSWORD.
 Proof. exact no_encrypted_package_not_password. Qed.
 
@@ -278,7 +278,7 @@ Check C20_nested_encrypted_package_not_password :
 Check C20_encrypted_ooxml_is_password :
   forall (before : list dirent) (d : dirent) (after_ : list dirent) (zip : outcome unit),
     children (before ++ d :: after_) 0 = [] ->
-    d_name d = ENCRYPTED_PACKAGE ->
+    name_equiv (d_name d) ENCRYPTED_PACKAGE ->
     ooxml_check (Ok (before ++ d :: after_)) = Err PasswordCfb.E_PASSWORD /\
     ooxml_new (Ok (before ++ d :: after_)) zip = Err PasswordCfb.E_PASSWORD.
 Check C20_ods_encryption_data_is_password :
@@ -385,27 +385,40 @@ Definition ex_lt_nested : layout :=
 Example C20_encrypted_ooxml_is_password_any_layout_nonvacuous :
   valid_layout (ex_c 512) ex_l /\ valid_layout (ex_c 4096) ex_l4 /\
   flat_root (ex_c 512) ex_l /\ flat_root (ex_c 4096) ex_l4 /\
-  In ENCRYPTED_PACKAGE (all_names (ex_c 512)) /\
+  mem_name ENCRYPTED_PACKAGE (all_names (ex_c 512)) = true /\
   ooxml_check_bytes (fuel_for ex_l) (cfb_write (ex_c 512) ex_l) = Err PasswordCfb.E_PASSWORD /\
   ooxml_check_bytes (fuel_for ex_l4) (cfb_write (ex_c 4096) ex_l4) = Err PasswordCfb.E_PASSWORD /\
   valid_layout (ex_c 4096) ex_lt /\ legal_tree (ex_c 4096) ex_lt /\ linked_tree (ex_c 4096) ex_lt /\
   resolve (ex_c 4096) 0 [ENCRYPTED_PACKAGE] = Some 3 /\
   ooxml_check_bytes (fuel_for ex_lt) (cfb_write (ex_c 4096) ex_lt) = Err PasswordCfb.E_PASSWORD.
-Proof. repeat split; vm_compute; try reflexivity. right; right; left; reflexivity. Qed.
+Proof. repeat split; vm_compute; reflexivity. Qed.
+
+(* CFB-1 (audit 2): compound-file names compare up to case ([MS-CFB] 2.6.4): a package whose writer
+   upper-cased the stream names is an encrypted package all the same — no hierarchy written, and
+   with the legal tree of ex_lt (upper-casing does not change the sibling order) *)
+Definition ex_c_upper (ss : N) : container :=
+  {| c_ss := ss; c_storages := [[6;68;97;116;97;83;112;97;99;101;115]];
+     c_streams := [(name_key ENCRYPTION_INFO, ex_info); (name_key ENCRYPTED_PACKAGE, ex_pkg)]; c_parents := [] |}.
+Example C20_encrypted_package_any_case_nonvacuous :
+  name_key ENCRYPTED_PACKAGE = [69;78;67;82;89;80;84;69;68;80;65;67;75;65;71;69] /\      (* ENCRYPTEDPACKAGE *)
+  valid_layout (ex_c_upper 512) ex_l /\ flat_root (ex_c_upper 512) ex_l /\
+  mem_name ENCRYPTED_PACKAGE (all_names (ex_c_upper 512)) = true /\
+  ooxml_check_bytes (fuel_for ex_l) (cfb_write (ex_c_upper 512) ex_l) = Err PasswordCfb.E_PASSWORD /\
+  valid_layout (ex_c_upper 4096) ex_lt /\ legal_tree (ex_c_upper 4096) ex_lt /\
+  resolve (ex_c_upper 4096) 0 [ENCRYPTED_PACKAGE] = Some 3 /\
+  ooxml_check_bytes (fuel_for ex_lt) (cfb_write (ex_c_upper 4096) ex_lt) = Err PasswordCfb.E_PASSWORD.
+Proof. repeat split; vm_compute; reflexivity. Qed.
 
 Example C20_nested_encrypted_package_not_password_nonvacuous :
   valid_layout ex_nested ex_lt_nested /\ legal_tree ex_nested ex_lt_nested /\
-  In ENCRYPTED_PACKAGE (all_names ex_nested) /\ resolve ex_nested 0 [ENCRYPTED_PACKAGE] = None /\
+  mem_name ENCRYPTED_PACKAGE (all_names ex_nested) = true /\ resolve ex_nested 0 [ENCRYPTED_PACKAGE] = None /\
   ooxml_check_bytes (fuel_for ex_lt_nested) (cfb_write ex_nested ex_lt_nested) = Ok tt.
-Proof. repeat split; vm_compute; try reflexivity. right; right; left; reflexivity. Qed.
+Proof. repeat split; vm_compute; reflexivity. Qed.
 
 Example C20_no_false_positive_ooxml_any_layout_nonvacuous :
-  valid_layout (ex_plain 512) ex_l /\ ~ In ENCRYPTED_PACKAGE (all_names (ex_plain 512)) /\
+  valid_layout (ex_plain 512) ex_l /\ mem_name ENCRYPTED_PACKAGE (all_names (ex_plain 512)) = false /\
   ooxml_check_bytes (fuel_for ex_l) (cfb_write (ex_plain 512) ex_l) = Ok tt.
-Proof.
-  split; [vm_compute; reflexivity|]. split; [|vm_compute; reflexivity].
-  intros H. vm_compute in H. repeat (destruct H as [H|H]; [discriminate|]). exact H.
-Qed.
+Proof. repeat split; vm_compute; reflexivity. Qed.
 
 (* totality theorems carry no hypothesis; an input on which the old code panicked *)
 Example C20_no_panic_xls_globals_real_nonvacuous :
